@@ -348,8 +348,11 @@ func (m *machine) remoteWrite(t *rapid.T) {
 
 func TestSubscriptions(t *testing.T) {
 	rapid.Check(t, world.Prop(func(t *rapid.T) {
-		m := &machine{w: regs.New(3), subs: map[regs.Key]bool{}, binds: map[regs.Key]bool{}, state: map[string][]reflect.Value{}}
+		// up to two of the three peers have not announced themselves yet
+		silent := rapid.SampledFrom([]int{0, 0, 0, 1, 2}).Draw(t, "unannouncedPeers")
+		m := &machine{w: regs.NewWithUnannounced(3, silent), subs: map[regs.Key]bool{}, binds: map[regs.Key]bool{}, state: map[string][]reflect.Value{}}
 		defer m.w.Teardown()
+		world.Label(fmt.Sprintf("unannouncedPeers/%d", silent))
 		t.Repeat(map[string]func(*rapid.T){
 			"subscribe":   m.subscribe,
 			"subscribe2":  m.subscribe,
